@@ -4,10 +4,13 @@
 
   Two parts:
   * `C20_frame`: the *generated* effect summary of /repo (extractor: SSA of every
-    non-test function outside `init`/`NewEncoding`) contains no store, map
-    update or receiver-mutating `math/big` call whose target is rooted in a
-    package-level variable or in a `*basex.Encoding` — the shared state is
-    read-only after construction.  Re-checked by the kernel on every run.
+    non-test function outside `init`/`NewEncoding` and the `basic` keyring's own
+    Import/Generate/New mutators) contains no store, map update, foreign
+    pointer-receiver call or interface invocation whose target is rooted in a
+    package-level variable or reached through ANY pointer to a `basex.Encoding`
+    or a `basic.Keyring` — wherever that pointer came from (a parameter, a field
+    such as `encoder.enc` or `armorParams.Encoding`, a call result): the shared
+    state is read-only after construction.  Re-checked by the kernel on every run.
   * `C20_globals_known`: the *generated* list of package-level variables is,
     entry for entry, the list written out here (error values, the four shipped
     encodings, the armor parameters, the eight frame-checker function values) —
